@@ -512,8 +512,36 @@ pub fn run_case(ctx: &Ctx, prof: &Profile, case: u64, verbose: bool) -> CaseOut 
     let mut mutations = 0u64;
     let mut targets = 0u64;
     let mut states: HashSet<(u8, &'static str)> = HashSet::new();
+    // after a clock advance: a command aimed at an item that has expired since and that nobody has touched
+    // (the sweep is skipped once), with every CAS argument: the states "expired, collected" and "expired, still
+    // in the map" must be indistinguishable for get/add/replace/append/prepend/incr/decr
+    let mut probe_uncollected = false;
     for step in 0..len {
-        let cmd = gen_cmd(&mut rng, prof, &m, &keys, limit);
+        let mut cmd = gen_cmd(&mut rng, prof, &m, &keys, limit);
+        if probe_uncollected {
+            probe_uncollected = false;
+            let expired: Vec<usize> = (0..keys.len()).filter(|k| matches!(&m.slots[*k], Slot::Present(it) if it.vis(m.now) == Vis::Expired)).collect();
+            if !expired.is_empty() {
+                let key = expired[rng.gen_range(0..expired.len())];
+                let cas = match rng.gen_range(0..6) {
+                    0 | 1 => CasArg::Zero,
+                    2 => CasArg::Current,
+                    3 => CasArg::Raw(rng.gen_range(1..5)),
+                    4 => CasArg::Stale(0),
+                    _ => CasArg::Raw(rng.gen()),
+                };
+                let quiet = rng.gen_bool(prof.p_quiet);
+                cmd = match rng.gen_range(0..7) {
+                    0 | 1 => Cmd::Store { op: op::ADD, key, value: b"after-expiry".to_vec(), flags: rng.gen(), ttl: 0, cas, quiet },
+                    2 => Cmd::Store { op: op::REPLACE, key, value: b"r".to_vec(), flags: 1, ttl: 0, cas, quiet },
+                    3 => Cmd::Concat { append: rng.gen_bool(0.5), key, value: b"x".to_vec(), cas, quiet },
+                    4 => Cmd::Counter { incr: rng.gen_bool(0.5), key, delta: 1, initial: 7, exp: if rng.gen_bool(0.5) { 0 } else { 0xffff_ffff }, cas, quiet },
+                    5 => Cmd::Store { op: op::SET, key, value: b"s".to_vec(), flags: 2, ttl: 0, cas, quiet },
+                    _ => Cmd::Delete { key, cas, quiet },
+                };
+                *out.counters.entry("probes_of_an_expired_uncollected_item".into()).or_insert(0) += 1;
+            }
+        }
         if let Cmd::Advance(d) = cmd {
             let t = stack.timer.advance(d);
             m.now = t;
@@ -543,6 +571,10 @@ pub fn run_case(ctx: &Ctx, prof: &Profile, case: u64, verbose: bool) -> CaseOut 
                     break;
                 }
             }
+        }
+        if matches!(cmd, Cmd::Advance(_)) && rng.gen_bool(0.4) {
+            probe_uncollected = true;
+            continue;
         }
         let do_sweep = match sweep_mode {
             Sweep::Every => true,
